@@ -269,7 +269,8 @@ def run_channel(item):
         #     again present the same picture (no stale cache of another file's index)
         full_model = model.runs(lo, hi, cfg)
         real_file = h5py.File
-        for fail_at in range(0, 4):
+        probes = [(lo, hi)] + [(s_, s_) for s_ in edges if lo <= s_ <= hi][::2]
+        for fail_at, probe in [(f_, p_) for f_ in range(0, 4) for p_ in probes]:
             state = {"n": 0}
 
             class FlakyFile(real_file):
@@ -291,7 +292,7 @@ def run_channel(item):
             finally:
                 h5py.File = real_file
             part["evaluations"] += 1
-            for (qs, qe) in [(lo, hi)] + [(s_, s_) for s_ in edges[::3]]:
+            for (qs, qe) in [probe, (lo, hi)]:
                 try:
                     got = rf.read_runs(r3, ch, qs, qe)
                 except Exception:  # noqa: BLE001
